@@ -189,19 +189,31 @@ def catalogue():
     add("RotationLink(leader on axis)", "off axis", "in", lambda: cb.RotationLink([1, 0, 1], [1, 1, 0], [0, 0, 1], [0, 0, 0]))
 
     # --- life cycle
-    def lifecycle(call, assembled):
+    def lifecycle(call, history):
         m = cb.Mesh()
         b = cb.Box([0, 0, 0], [1, 1, 1])
         for a in range(3):
             b.chop(a, count=1)
         m.add(b)
-        if assembled:
-            m.assemble()
+        for ev in history:
+            getattr(m, ev)()
         getattr(m, call)()
 
     for call in ("grade", "backport"):
-        add(f"Mesh.{call}()", "before assemble", "out", lambda call=call: lifecycle(call, False))
-        add(f"Mesh.{call}()", "after assemble", "in", lambda call=call: lifecycle(call, True))
+        add(f"Mesh.{call}()", "before assemble", "out", lambda call=call: lifecycle(call, []))
+        add(f"Mesh.{call}()", "after assemble", "in", lambda call=call: lifecycle(call, ["assemble"]))
+        # clear() undoes assemble(): the mesh is un-assembled again
+        add(f"Mesh.{call}()", "after assemble, clear", "out", lambda call=call: lifecycle(call, ["assemble", "clear"]))
+        add(f"Mesh.{call}()", "after assemble, clear, assemble", "in", lambda call=call: lifecycle(call, ["assemble", "clear", "assemble"]))
+        add(f"Mesh.{call}()", "after assemble, backport", "in", lambda call=call: lifecycle(call, ["assemble", "backport"]))
+
+    def empty_mesh(call):
+        m = cb.Mesh()
+        m.assemble()
+        getattr(m, call)()
+
+    for call in ("grade", "backport"):
+        add(f"Mesh.{call}()", "empty mesh after assemble", "out", lambda call=call: empty_mesh(call))
 
     # --- shell
     def shell_chop(disconnected):
